@@ -166,7 +166,8 @@ Definition read_string (vt : option tyc) (lst : option (larm * lpay)) (j5 : opti
                 else Ok (TKey (match fmt with
                                | Some SfUuid => Some KUuid
                                | Some SfId62 => Some KId62
-                               | Some SfNatural => Some KInformal
+                               (* natural_key yields to a format the key annotation states (fix 240b498) *)
+                               | Some SfNatural => match j5 with Some (XKey (Some f)) => Some f | _ => Some KInformal end
                                (* otherwise what the key annotation says *)
                                | Some SfDate | Some SfNumber | None => match j5 with Some (XKey f) => f | _ => None end
                                end)
@@ -421,8 +422,14 @@ Definition rt_fty (m : mode) (t : fty) : bool :=
   | _, TKey (Some KUuid) _ _ | _, TKey (Some KId62) _ _ => true
   (* custom pattern / informal live in (j5.ext.v1.field).key, which array items and map values do not have *)
   | MSingle, TKey (Some KInformal) _ _ => true
-  (* a custom key with list rules is written as a unique_string foreign key, which reads back informal *)
-  | MSingle, TKey (Some (KCustom p)) _ l => negb (str_eqb p Id62Gen.pattern_string) && negb (is_some l)
+  (* ... but list rules (a unique_string foreign key, read as natural_key = informal) identify an informal key item *)
+  | MArray, TKey (Some KInformal) _ (Some _) => true
+  (* the custom pattern is also written as the validation pattern: the reader's well-known id62
+     pattern turns the key into key:id62; with list rules (a unique_string foreign key) any
+     well-known pattern makes the reader fail *)
+  | MSingle, TKey (Some (KCustom p)) _ l =>
+      negb (str_eqb p Id62Gen.pattern_string)
+      && (negb (is_some l) || (negb (str_eqb p date_pattern) && negb (str_eqb p number_pattern)))
   | _, TKey (Some _) _ _ => false
   | MSingle, _ => true
   (* inside an array or a map there is no (j5.ext.v1.field) of the item *)
